@@ -179,6 +179,42 @@ func runAdmitLastPeerScenario(col *trace.Collector, variant int) (hooks []verifh
 		return nil, nil, "last-peer scenario: the only neighbour never became a route"
 	}
 	what := "was rejected (cost mismatch)"
+	if variant == 2 {
+		// a one-way transport fault: everything the node sends on this session fails, the peer keeps talking. A
+		// session that can no longer send is over (protoWriter cancels it), so it must end and leave nothing behind.
+		what = "could no longer be sent to (every Send fails, receives still work)"
+		p.Pipe.AB.SetSendError(true)
+		px, err := n.Attach("px")
+		if err != nil {
+			return nil, nil, err.Error()
+		}
+		if err := px.Handshake("n1", 1, nil); err != nil { // makes the node flood an own update to every neighbour
+			return nil, nil, "last-peer scenario: second handshake: " + err.Error()
+		}
+		_ = p.SendRoute(peer.RoutingUpdate{NodeID: "pl", UpdateID: "last-2-keepalive", UpdateEpoch: p.Epoch, UpdateSequence: 60, Connections: map[string]float64{"n1": 1}, ForwardingNode: "pl"})
+		if !p.WaitEOF(20 * time.Second) {
+			viol = append(viol, Violation{"C11:session-survives-send-failure",
+				"every Send on an established session fails (the peer still sends), the node had to flood an update to it, and 20 s later the session is still open and listed", map[string]any{"scenario": "last-peer", "variant": variant}})
+
+			return nil, viol, ""
+		}
+		dl := time.Now().Add(15 * time.Second)
+		for {
+			_, still := n.N.VerifSnapshot().Conns["pl"]
+			_, routed := n.N.Status().RoutingTable["pl"]
+			if !still && !routed {
+				break
+			}
+			if time.Now().After(dl) {
+				viol = append(viol, Violation{"C11:route-left-behind-after-send-failure", "the session that could no longer send ended, but its peer is still listed or routed 15 s later", map[string]any{"scenario": "last-peer", "variant": variant}})
+
+				break
+			}
+			time.Sleep(10 * time.Millisecond)
+		}
+
+		return nil, viol, ""
+	}
 	if variant == 0 {
 		_ = p.SendRoute(peer.RoutingUpdate{NodeID: "pl", UpdateID: fmt.Sprintf("last-%d", variant), UpdateEpoch: p.Epoch, UpdateSequence: 50, Connections: map[string]float64{"n1": 3}, ForwardingNode: "pl"})
 	} else {
